@@ -519,8 +519,8 @@ class _Algorithm2D:
                 ParameterWarning, stacklevel=2
             )
         weight_array = _check_optional_array(
-            self._shape, weights, copy_input=copy_weights, check_finite=self._check_finite,
-            ensure_1d=False, axis=slice(None)
+            self._shape, weights, dtype=float, copy_input=copy_weights,
+            check_finite=self._check_finite, ensure_1d=False, axis=slice(None)
         )
         if self._sort_order is not None and weights is not None:
             weight_array = weight_array[self._sort_order]
@@ -595,8 +595,8 @@ class _Algorithm2D:
 
         """
         weight_array = _check_optional_array(
-            self._shape, weights, copy_input=copy_weights, check_finite=self._check_finite,
-            ensure_1d=False, axis=slice(None)
+            self._shape, weights, dtype=float, copy_input=copy_weights,
+            check_finite=self._check_finite, ensure_1d=False, axis=slice(None)
         )
         if self._sort_order is not None and weights is not None:
             weight_array = weight_array[self._sort_order]
@@ -691,8 +691,8 @@ class _Algorithm2D:
 
         """
         weight_array = _check_optional_array(
-            self._shape, weights, copy_input=copy_weights, check_finite=self._check_finite,
-            ensure_1d=False, axis=slice(None)
+            self._shape, weights, dtype=float, copy_input=copy_weights,
+            check_finite=self._check_finite, ensure_1d=False, axis=slice(None)
         )
         if self._sort_order is not None and weights is not None:
             weight_array = weight_array[self._sort_order]
